@@ -231,7 +231,16 @@ def run(ctx: vlib.Ctx):
                 else:
                     ctx.notes.append(f"known finding {f['id']} no longer reproduces on its witness")
         open_ids = {f["id"] for f in findings}
-        sample = rng.sample(texts, min(len(texts), ctx.budget(40, 1500))) + corpus[:4]
+        # contents for the tool clause: raw texts, shipped documents, content-model documents (all constructs, PATTERN/REGEX keys,
+        # zones, holographic-looking lists) and a pool of values that take unusual routes through warnings / repair logs
+        pool = ["REGEX::[alpha,beta]", "RULES::[PATTERN::[a,b]]", "PATTERN::\n```\nx\n```\n", "K::[REGEX::[\"x\"∧REQ]]", "PATTERN::[k::v]",
+                "===D===\nMETA:\n  TYPE::[a,b]\n  CONTRACT::[FIELD[x]::REQ]\n===END===\n", "K::NAME{q}", "K::\"\"\"a\nb\"\"\" x", "K::1e400",
+                "===D===\nMETA:\n  N:\n    A::[1,[2]]\n---\n§1::S\n  K::[\"e\"∧ENUM[a,b]→§T]\n===END===\n"]
+        gen_docs = []
+        for gi in range(ctx.budget(40, 600)):
+            _d, ctext, _cr, ltext, _lr = TC.gen_case(ctx.seed, 100000 + gi)
+            gen_docs += [ctext, ltext]
+        sample = rng.sample(texts, min(len(texts), ctx.budget(40, 1500))) + corpus[:4] + pool + gen_docs
         fails = tt.tools_total_failures(sample, rng, ctx.budget(700, 20000))
         ctx.extra["tool_calls"] = getattr(tt.tools_total_failures, "last_stats", None)
         for fl in fails:
